@@ -8,6 +8,16 @@ transition system; transcripts (every operation's first/last segment index and r
 `get_sync` of every key, SSTable/keys per level) are diffed.  The Lean Spec (`HappyModel/C14/Spec.lean`)
 judges the implementation's own observations: every get/scan result must be the value of a write
 that is not overwritten by a write completed before the read began.
+
+Further families (`c14_store.py`): a real `BTree` (orders 3–5; scrambled insertion orders, sweeps of overwrites
+that hit separator / median keys at the moment a full node is split, deletes, re-inserts; sequential clients
+and clients overlapping in simulated time), a real `KVStore` without capacity limit, and a real
+`TransactionManager` over either (2–5 transactions at READ_COMMITTED / SNAPSHOT_ISOLATION / SERIALIZABLE, with
+write-skew, r-w-cycle, lost-update and long-reader patterns whose commit calls are 0–20 µs apart, i.e. inside
+the 10 µs commit latency).  Same schedule-replay technique; the Lean Spec judges the store observations with the
+clause above plus `delete` flags and `size`, and the transaction observations with: committed SERIALIZABLE
+transactions are equivalent to some serial order (permutations enumerated), SNAPSHOT_ISOLATION transactions read
+from one prefix of the commit order.
 """
 from __future__ import annotations
 
@@ -26,6 +36,7 @@ from hv import core
 import os as _os
 _os.environ.setdefault("HV_SERIAL", "1")
 from hv.props import c14_impl as I
+from hv.props import c14_store as S
 
 KEYSETS = [
     ["k13", "k15", "k49", "k84"], ["k45", "k67", "k86", "k97"], ["k39", "k54", "k75", "k82"],
@@ -206,9 +217,19 @@ def observe(case, crash_at=None):
             os.unlink(p)
             _OBS[key] = (a, b)
         else:
-            rec, _lsm, _wal = I.run_lsm(case, crash_at=crash_at)
+            if case.get("family", "lsm") == "lsm":
+                rec, _lsm, _wal = I.run_lsm(case, crash_at=crash_at)
+            else:
+                rec, _tail = run_other(case)
             _OBS[key] = (list(rec.sched), list(rec.oracle))
     return _OBS[key]
+
+
+def run_other(case):
+    fam = case["family"]
+    if fam == "txn":
+        return S.run_txn(case)
+    return S.run_store(case)
 
 
 def sched_lines(sched, oracle):
@@ -230,7 +251,14 @@ class C14(core.Property):
     quick_cases = 3000
     thorough_cases = 60000
     case_timeout_s = 20
-    rule = ("family lsm: 2–4 workers run scripts (≤40 ops in total) of put/delete/get/scan over 3–5 keys on a real LSMTree "
+    rule = ("five families, 45 % lsm / 15 % btree-sequential / 10 % btree-concurrent / 5 % kv / 25 % txn. "
+            "btree: one client (≤ ~80 ops: 2–6 rounds of scrambled puts over 5–12 keys — strides, reversed, outside-in, random — "
+            "with interleaved get/scan/size, then deletes) or 2–4 overlapping clients (writers growing the tree while readers sit in "
+            "their page-read latency), orders 3–5; non-trivial when the tree reached depth ≥ 2. kv: 1–3 overlapping clients, 2–5 keys. "
+            "txn: 2–5 transactions over 2–4 hot keys on a KVStore or an order-3/4 BTree (filler keys make commits split nodes), "
+            "isolation levels mixed or uniform, patterns write-skew / r-w cycle / lost update / long reader vs committing writers / random "
+            "programs, commit calls 0,1,2,5,9,10,11,20,100 µs apart; non-trivial when ≥ 2 clients and ≥ 1 commit. "
+            "family lsm: 2–4 workers run scripts (≤40 ops in total) of put/delete/get/scan over 3–5 keys on a real LSMTree "
             "(memtable size 1–3, 2–4 levels, size-tiered / leveled / FIFO compaction, optional WAL with every sync policy, "
             "key names chosen so that the real bloom filters have false positives), start offsets and sleeps on a 250 µs grid "
             "against 0.5–3 ms SSTable latencies so that operations overlap flushes and compactions; a case is non-trivial when "
@@ -240,17 +268,25 @@ class C14(core.Property):
         "the engine's choice of interleaving is an input to the model (its ordering rule is C01/C02)",
         "bloom filter answers enter the model as a table computed with the real SSTable bloom filter",
         "SyncPeriodic.should_sync answers are recorded and fed to the model (float time arithmetic not modelled)",
+        "hv/props/c14_store.py (worker entities for BTree / KVStore / TransactionManager); the B-tree node structure compared with the "
+        "model is read from the private BTree._root (the judge uses public results only)",
     ]
     assumptions = [
         "values written by puts are pairwise distinct in generated cases (a returned value names its write)",
         "operation intervals are measured in executed generator segments (a refinement of simulated time)",
         "page counts: every SSTable has < 16 keys, so every flush/compaction write costs one page (equal latencies)",
+        "B-tree / KVStore keys are k00..k11 (index order = string order); transaction values are pairwise distinct and differ from "
+        "the initial values; every transaction slot is begun once and used by one client",
+        "serial-order search enumerates all permutations of the committed transactions (≤ 5 per case)",
     ]
     hypotheses = [
         "flushes_install_in_start_order (abs_flush_install): the SSTable being installed belongs to the oldest frozen memtable; "
         "holds in the engine because every flush write costs one page (equal latencies, FIFO ties)",
         "frozen memtable identities are pairwise distinct (abs_flush_install)",
         "Uniq: keys of every source SSTable are pairwise distinct (abs_compact_partial)",
+        "3 ≤ order (btree_refines_map, btree_sorted; BTree.__init__ rejects smaller orders)",
+        "ok / ok_put / get_put (serializable_commit_order, snapshot_reads_consistent): the store obeys the map laws; discharged for the "
+        "KVStore dict (kv_laws) and for every B-tree of order ≥ 3 satisfying the search-tree invariant (bt_laws, btOk_built)",
     ]
     partial_theorems = {
         "abs_compact_partial": "proved: the merged payload of a compaction answers every key like a newest-first read through the "
@@ -260,14 +296,31 @@ class C14(core.Property):
         "read_regular / deleted_stay_deleted / scan_sorted_live": "not proved over interleavings (read_regular_full in Props.lean is the statement); "
                                "proved are the per-segment refinement steps abs_put, abs_delete, abs_flush_start, abs_flush_install, which hold for every "
                                "state and hence every interleaving. The clause is checked on the implementation by the Lean Spec judge on every case.",
-        "btree_sorted / btree_refines_map / KVStore / serializable_commit_order": "B-tree, KVStore and TransactionManager are not modelled in this round.",
+        "btree_refines_map / serializable_commit_order over interleavings": "proved for every sequence of atomic actions (B-tree puts/deletes; "
+                               "transaction begin/readStart/readFetch/write/commit/abort in any order). Not proved: that the *observations* of the segment "
+                               "machines (stepS / stepT under an arbitrary schedule, with first/last segment indices) satisfy judgeStore / judgeTxn; the link "
+                               "is that each operation acts on the store in exactly one segment (stepS, doAct) and SM.stepT_state / SM.readAdvance_fetch. "
+                               "The clause is checked on the implementation by the Lean Spec judge on every case.",
     }
 
     def generate(self, rng: random.Random, i: int, tier: str) -> dict:
-        return gen_lsm_case(rng, tier)
+        m = i % 20
+        if m < 9:
+            return gen_lsm_case(rng, tier)
+        if m < 12:
+            return S.gen_btree_seq(rng, tier)
+        if m < 14:
+            return S.gen_btree_conc(rng, tier)
+        if m < 15:
+            return S.gen_kv(rng, tier)
+        return S.gen_txn(rng, tier)
 
     # ------------------------------------------------------------------ implementation
     def run_impl(self, case):
+        if case.get("family", "lsm") != "lsm":
+            rec, tail = run_other(case)
+            remember(case, None, rec)
+            return S.op_lines(rec) + tail
         rec, lsm, _wal = I.run_lsm(case)
         remember(case, None, rec)
         return I.op_lines(rec) + I.final_lines(case, lsm)
@@ -275,11 +328,38 @@ class C14(core.Property):
     # ------------------------------------------------------------------ model / judge
     def model_block(self, case, variant):
         sched, oracle = observe(case)
+        fam = case.get("family", "lsm")
+        if fam != "lsm":
+            return ("txn" if fam == "txn" else "store", S.config_lines(case) + sched_lines(sched, []))
         return ("lsm", config_lines(case) + sched_lines(sched, oracle))
+
+    def judge_other(self, case, impl_out):
+        fam = case["family"]
+        body = S.config_lines(case)
+        n = 0
+        for line in impl_out:
+            t = line.split()
+            if t[0] == "op":
+                body.append(f"obs {t[1]} {t[2]} {t[3]} {t[4]}")
+                n = max(n, int(t[2]) + 1, (int(t[3]) + 1) if t[3] != "x" else 0)
+            elif t[0] == "final":
+                if fam == "txn":
+                    body.append(line)
+                else:
+                    # the final get_sync of every key is a read that begins after everything else
+                    for k, v in enumerate(t[1:]):
+                        body.append(f"op {9000 + k} get {k}")
+                        body.append(f"obs {9000 + k} {n + 1} {n + 1} {v}")
+            elif t[0] == "size" and fam != "txn":
+                body.append("op 9900 size")
+                body.append(f"obs 9900 {n + 1} {n + 1} {t[1]}")
+        return ("judge-txn" if fam == "txn" else "judge-store", body)
 
     def judge_block(self, case, impl_out):
         if not impl_out or impl_out[0].startswith("IMPL-"):
             return None
+        if case.get("family", "lsm") != "lsm":
+            return self.judge_other(case, impl_out)
         body = config_lines(case)
         n = 0
         for line in impl_out:
@@ -295,6 +375,17 @@ class C14(core.Property):
         return ("judge-lsm", body)
 
     def nontrivial_key(self, case, impl_out):
+        fam = case.get("family", "lsm")
+        if fam != "lsm":
+            if not impl_out or impl_out[0].startswith("IMPL-"):
+                return None
+            if fam == "btree":
+                ok = any(l.startswith("shape ") and int(l.split()[1]) >= 2 for l in impl_out)
+            elif fam == "txn":
+                ok = any(l.startswith("stats ") and int(l.split()[1]) >= 1 for l in impl_out) and len(case["workers"]) >= 2
+            else:
+                ok = True
+            return json.dumps(case, sort_keys=True) if ok else None
         reads, writes, tables = [], [], False
         kinds = dict(declared_ops(case))
         for line in impl_out:
@@ -314,12 +405,16 @@ class C14(core.Property):
                 c = dict(case)
                 c["workers"] = ws[:i] + ws[i + 1:]
                 yield c
+        # chunks of operations first (long single-client scripts), then single operations
         for i, w in enumerate(ws):
-            for j in range(len(w["ops"])):
-                c = dict(case)
-                c["workers"] = [dict(x) for x in ws]
-                c["workers"][i]["ops"] = w["ops"][:j] + w["ops"][j + 1:]
-                yield c
+            n = len(w["ops"])
+            sizes = [z for z in (n // 2, n // 4, n // 8) if z >= 2]
+            for z in sizes + [1]:
+                for j in range(0, n, z):
+                    c = dict(case)
+                    c["workers"] = [dict(x) for x in ws]
+                    c["workers"][i]["ops"] = w["ops"][:j] + w["ops"][j + z:]
+                    yield c
         for i, w in enumerate(ws):
             if w["start"] > 0:
                 c = dict(case)
@@ -333,17 +428,33 @@ class C14(core.Property):
             w = rng.choice(c["workers"])
             r = rng.random()
             if r < 0.35:
-                w["start"] = max(0, w["start"] + rng.choice([-250, 250, -1000, 1000, 10]))
+                steps = [-1, 1, 2, -2, 5, 10, -10] if c.get("family") == "txn" else [-250, 250, -1000, 1000, 10]
+                w["start"] = max(0, w["start"] + rng.choice(steps))
             elif r < 0.6 and w["ops"]:
-                w["ops"].insert(rng.randrange(len(w["ops"])), ["sleep", rng.choice([0, 10, 250, 1000, 2010])])
+                w["ops"].insert(rng.randrange(len(w["ops"])), ["sleep", rng.choice([0, 1, 5, 10, 11] if c.get("family") == "txn" else [0, 10, 250, 1000, 2010])])
             elif r < 0.8 and len(w["ops"]) > 1:
                 del w["ops"][rng.randrange(len(w["ops"]))]
-            else:
+            elif "keys" in c:
                 w["ops"].append(["get", rng.randrange(len(c["keys"]))])
+            elif c["family"] != "txn":
+                w["ops"].append(["get", rng.randrange(c["nkeys"])])
         return c
 
 
 THEOREMS = [
+    "HappyModel.C14.BT.btree_refines_map",
+    "HappyModel.C14.BT.btree_sorted",
+    "HappyModel.C14.BT.map_lookup_upsert",
+    "HappyModel.C14.BT.map_lookup_erase",
+    "HappyModel.C14.SM.serializable_commit_order",
+    "HappyModel.C14.SM.snapshot_reads_consistent",
+    "HappyModel.C14.SM.kv_laws",
+    "HappyModel.C14.SM.bt_laws",
+    "HappyModel.C14.SM.serializable_commit_order_kv",
+    "HappyModel.C14.SM.serializable_commit_order_btree",
+    "HappyModel.C14.SM.snapshot_reads_consistent_btree",
+    "HappyModel.C14.SM.stepT_state",
+    "HappyModel.C14.SM.readAdvance_fetch",
     "HappyModel.C14.abs_put",
     "HappyModel.C14.abs_delete",
     "HappyModel.C14.abs_flush_start",
